@@ -17,6 +17,7 @@ import CamVerif.Proofs.C02Bits
 import CamVerif.Proofs.C02Kernel
 import CamVerif.Props.C01
 import CamVerif.Proofs.C02GenTie
+import CamVerif.Proofs.C02Cached
 namespace CamVerif.C02
 open CamVerif CamVerif.Reg CamVerif.BitMask CamVerif.Spec.Codec CamVerif.Proofs.C02
 open CamVerif.Proofs.C01 (afterRead afterWrite)
@@ -864,5 +865,90 @@ theorem siblings_on_device_spec (p : Profile) (port : Port) (hp : port.hasChunkI
 re-translates from the CURRENT Rust source on every run (FnBitMask) are equal, for every input and both
 build profiles, to the hand-written model functions the theorems above are about. -/
 theorem gen_fn_tie : CamVerif.Proofs.C02GenTie.GenTie := CamVerif.Proofs.C02GenTie.gen_tie
+
+/-! ## Caching ON: composition with C04's cache model
+
+The statement's quantifier: "with caching on, siblings are declared as each other's
+invalidators".  C04's model (`CamVerif.Model.Cache`, `Props/C04.lean`) proves that for every
+description satisfying `Declared` the build with the DEFAULT cache store is indistinguishable
+from the build without cache.  The sibling descriptions of this property satisfy `Declared`,
+so caching is transparent for them; C04's field codec is tied to the same independent
+`Spec.Codec` as the uncached theorems above. -/
+
+/-- **sibGraph_declared**: one port and any number of bit fields of one register (any masks,
+signs, per-field caching modes) that all name each other as `pInvalidator` satisfy C04's
+`Declared`, in both build profiles. -/
+theorem sibGraph_declared (p : Profile) (base : Int) (len : Nat) (e : Cache.Endian)
+    (fs : List Proofs.C02Cached.SibField) :
+    C04.Declared p (Proofs.C02Cached.sibGraph base len e fs) :=
+  Proofs.C02Cached.sibGraph_declared p base len e fs
+
+/-- **siblings_cached_transparent**: for such a sibling group, any device (image, static and
+dynamic rejections incl. writes that are applied but reported failed or only partially applied)
+and ANY interleaved history of `value` / `set_value` / raw `read` / `write` on the fields, the
+build with the DEFAULT cache store returns exactly the results of the build without cache —
+every read, every refusal —, leaves the same bytes in the device and issues the very same device
+writes in the same order.  Hence whatever the uncached read-modify-write guarantees (sibling
+isolation, `siblings_on_device`) holds verbatim with caching on. -/
+theorem siblings_cached_transparent (p : Profile) (base : Int) (len : Nat) (e : Cache.Endian)
+    (fs : List Proofs.C02Cached.SibField) (d : Cache.Dev) (h : List Cache.Op)
+    (hh : Proofs.C02Cached.NoPortWrite h) :
+    let g := Proofs.C02Cached.sibGraph base len e fs
+    (Cache.runHist Cache.defaultCache p g (Cache.initDefault g d) h).1 =
+      (Cache.runHist Cache.sinkCache p g (Cache.initSink d) h).1 ∧
+    (Cache.runHist Cache.defaultCache p g (Cache.initDefault g d) h).2.dev.mem =
+      (Cache.runHist Cache.sinkCache p g (Cache.initSink d) h).2.dev.mem ∧
+    ((Cache.runHist Cache.defaultCache p g (Cache.initDefault g d) h).2.dev.log.filter (·.write) =
+      (Cache.runHist Cache.sinkCache p g (Cache.initSink d) h).2.dev.log.filter (·.write)) :=
+  Proofs.C02Cached.siblings_cached_transparent p base len e fs d h hh
+
+/-- **bridge (field extraction)**: C04's `apply_mask` is the independent codec's bit-field
+reading of the 64-bit pattern of the register word — `fieldU`, two's complement `fieldS` when
+signed — the reference `value_is_spec_field` ties this property's model to. -/
+theorem cache_applyMask_is_field (x : Int) (l w : Nat) (hw : 0 < w) (s : Cache.Sign) :
+    Cache.applyMask x l w s =
+      (match s with
+       | .signed => fieldS l (l + w - 1) (Cache.ofI64 x)
+       | .unsigned => (fieldU l (l + w - 1) (Cache.ofI64 x) : Int)) :=
+  Proofs.C02Cached.cache_applyMask_is_field x l w hw s
+
+/-- non-vacuity: three fields of a 2-byte register (default WriteThrough, WriteAround, NoCache),
+warm caches, writes through two of them: the cached build reads back what the uncached one
+does and the device word holds all three fields -/
+example :
+    let fs : List Proofs.C02Cached.SibField :=
+      [⟨.unsigned, 0, 3, .writeThrough⟩, ⟨.signed, 4, 11, .writeAround⟩, ⟨.unsigned, 12, 15, .noCache⟩]
+    let g := Proofs.C02Cached.sibGraph 0 2 .le fs
+    let d : Cache.Dev := ⟨[0xC3, 0xA5], [], [], [], [], 0, []⟩
+    let h : List Cache.Op := [.value 1, .value 2, .value 3, .setValue 2 (.int (-2)), .setValue 1 (.int 9),
+      .value 2, .value 1, .value 3]
+    (Cache.runHist Cache.defaultCache Profile.dev g (Cache.initDefault g d) h).1 =
+      [.ok (.int 3), .ok (.int 0x5C), .ok (.int 0xA), .ok .unit, .ok .unit, .ok (.int (-2)),
+       .ok (.int 9), .ok (.int 0xA)] ∧
+    (Cache.runHist Cache.defaultCache Profile.dev g (Cache.initDefault g d) h).2.dev.mem = [0xE9, 0xAF] ∧
+    Proofs.C02Cached.NoPortWrite h := by
+  refine ⟨by decide +kernel, by decide +kernel, ?_⟩
+  intro n a d hm
+  simp at hm
+
+/- `siblings_cached` (full-strength statement, NOT proved as one theorem; kept here as a note):
+
+   def siblings_cached_statement : Prop :=
+     ∀ p base len e fs d (h : history of value/set_value on the fields of `sibGraph base len e fs`),
+       (fields well formed and pairwise disjoint, device healthy) →
+       after the history under the DEFAULT cache store every `value()` returns the field's last
+       accepted written value (else its initial content) and the device word has every field equal
+       to its last written value and all other bits initial.
+
+   What is proved: `siblings_cached_transparent` (cached run = uncached run of C04's model, for
+   every device and history) and `siblings_on_device` (the statement for the uncached run of THIS
+   property's model), plus the codec bridges `cache_applyMask_is_field` / `value_is_spec_field`
+   (both models' field reading = `Spec.Codec.fieldU/fieldS`).
+   What is missing to chain them into one theorem: the interpreter-level bridging lemma
+   "`Cache.runHist sinkCache` on `sibGraph` = `runDev` (MaskedIntReg.setValue of Model.BitMask on
+   Reg.Dev)" between the two hand-written models of the same Rust functions — in particular
+   `Cache.maskedValue` (Nat arithmetic: clear the field, add the shifted value) = `specMerge`
+   (BitVec and/or), and C04's list-image device = `Reg.Mem`.  Each model is tied to the Rust code by
+   its own differential run. -/
 
 end CamVerif.C02
